@@ -113,6 +113,16 @@ def build_specs(rng, quick, ops, keep_snapshots=False, band=None):
             for j in range(0, len(calls), 30):
                 add(n, c, nbits, 1 + (j // 30) % 3, "mid" if op == "zerodm" else ("identity" if j % 60 else "random"),
                     calls[j:j + 30])
+    if "downsample" in ops:
+        # large decimation tiles (every tile size up to 200; 520 thorough): the mean of tf*ff values reduced to the output depth
+        # is exact integer arithmetic in the definition - a division carried out as multiplication by a rounded reciprocal is not
+        tiles = [(tf, 1, 1, 8) for tf in range(4, 201)] if quick else \
+            [(tf, 1, 1, 8) for tf in range(4, 521)] + [(tf, 2, 2, 8) for tf in range(2, 261)] + [(tf, 2, 4, 4) for tf in range(2, 131)] + \
+            [(tf, 4, 4, 32) for tf in range(2, 65)]
+        for (tf, ff, c, nbits) in tiles:
+            n = 2 * tf + rng.randrange(0, 3)
+            add(n, c, nbits, rng.choice([1, 2]), "const" if (tf + ff) % 3 else "random",
+                [dict(op="downsample", gulp=rng.choice([1, tf, tf + 1, 3 * tf, n + 1]), start=0, nsamps=n, tf=tf, ff=ff)])
     for _ in range(12 if quick else 150):
         nbits = rng.choice([1, 2, 4, 8, 32])
         c = rng.choice(DEPTH_CH[nbits])
